@@ -912,6 +912,65 @@ def rule_index_space(chk, prog):
 
 
 # ----------------------------------------------------------------------------
+# rule 8: the weight vector pairs with the control-point axis of X
+# ----------------------------------------------------------------------------
+def rule_weight_axis(chk, prog):
+    """In the mapping functions (kernel, X, alpha, ...) X holds one control point per row and one feature per
+    column (the feature axis is the one that is gathered / enumerated as np.arange(X.shape[1])); alpha holds
+    one weight per control point.  Any comparison of alpha's size with a size of X must use X.shape[0]."""
+    mt = prog.module(MT)
+    n = 0
+    for name in mt.functions:
+        fn0 = mt.functions[name]
+        ps = er.param_names(fn0)
+        if "X" not in ps or "alpha" not in ps:
+            continue
+        fn = mapping_function(prog, name)
+        n += 1
+
+        def x_axis(e, at, depth=0):
+            """k if e is X.shape[k] (directly or through locals), else None"""
+            if isinstance(e, ast.Subscript) and isinstance(e.value, ast.Attribute) and e.value.attr == "shape" \
+                    and pf.src(e.value.value) == "X" and isinstance(e.slice, ast.Constant):
+                return e.slice.value
+            if isinstance(e, ast.Call) and pf.call_name(e) == "len" and e.args and pf.src(e.args[0]) == "X":
+                return 0
+            if isinstance(e, ast.Name) and depth < 3:
+                d = er.reaching_assign(fn, e.id, at)
+                if d is not None:
+                    return x_axis(d.value, d, depth + 1)
+            return None
+
+        def is_alpha_size(e):
+            s_ = pf.src(e)
+            return s_ in ("alpha.size", "len(alpha)", "alpha.shape[0]", "alpha.shape[-1]")
+
+        found = False
+        for c in pf.walk_no_nested(fn):
+            if not (isinstance(c, ast.Compare) and len(c.ops) == 1 and isinstance(c.ops[0], (ast.Eq, ast.NotEq))):
+                continue
+            l, r = c.left, c.comparators[0]
+            for a_, b_ in ((l, r), (r, l)):
+                if is_alpha_size(a_):
+                    k = x_axis(b_, c)
+                    if k is None:
+                        continue
+                    found = True
+                    inst = "%s: alpha is sized against the control-point axis of X" % name
+                    if k in (0, -2):
+                        chk.ok("weight-axis", inst, detail=pf.src(c))
+                    else:
+                        chk.violation("weight-axis", MT, name, pf.src(c), c.lineno,
+                                      "`%s` compares the number of weights with X.shape[%s], the number of FEATURES; "
+                                      "alpha has one weight per control point (row of X), so the check passes only "
+                                      "for square X and rejects valid models otherwise" % (pf.src(c), k), instance=inst)
+        if not found:
+            chk.ok("weight-axis", "%s: no size comparison between alpha and X" % name, nontrivial=False)
+    if n < 2:
+        raise core.AnalysisError("fewer than 2 mapping functions take (X, alpha) in %s" % MT)
+
+
+# ----------------------------------------------------------------------------
 # rule 6: order-n scale multiplies the terms of order n
 # ----------------------------------------------------------------------------
 def _comb(n, k):
@@ -1138,6 +1197,9 @@ def _analyse_own(chk):
                             "indices (two-sorted index typing; caller-provided containers are feature-indexed)")
     chk.guard(rule_index_space, prog)
     chk.floor("index-space", 6, "containers indexed by a typed index in the two mapping functions")
+    chk.rule("weight-axis", "mapping functions: alpha (one weight per control point) is sized against X.shape[0]")
+    chk.guard(rule_weight_axis, prog)
+    chk.floor("weight-axis", 2, "mapping functions taking (X, alpha)")
     chk.rule("scale-order", "arbf_args lays out one scale per index set by ascending order; the mapper reads that "
                             "layout unshifted")
     chk.guard(rule_scale_order, prog)
@@ -1229,8 +1291,8 @@ def mutants(tree):
         Mutant("RBFEvaluator exps: 0.5 -> 1.0", XE, "0.5 / kernel.length_scale**2", "1.0 / kernel.length_scale**2",
                expect="rbf-extract"),
         Mutant("RBFEvaluator scale only set for products", XE,
-               "            assert isinstance(kernel, DiffRBF)\n            scale = 1.0\n        if isinstance(kernel, SubsetRBF):",
-               "            assert isinstance(kernel, DiffRBF)\n        if isinstance(kernel, SubsetRBF):", expect="rbf-extract"),
+               "            assert isinstance(kernel, DiffRBF)\n            scale = 1.0\n        X1ctrl = np.asarray(X1ctrl)",
+               "            assert isinstance(kernel, DiffRBF)\n        X1ctrl = np.asarray(X1ctrl)", expect="rbf-extract"),
         Mutant("simple mapper: inds only for subset kernels", MT,
                "    inds = np.arange(N)\n    if isinstance(rbf.k2, SubsetRBF):\n        inds = inds[rbf.k2.indexes]",
                "    if isinstance(rbf.k2, SubsetRBF):\n        inds = np.arange(N)[rbf.k2.indexes]", expect="rbf-extract"),
@@ -1270,6 +1332,8 @@ def mutants(tree):
                expect="index-space"),
         Mutant("additive mapper: bounds taken from a derived list by subset position", MT, fn=_bounds_alias,
                expect="index-space"),
+        Mutant("linear mapper: weights sized against the feature axis", MT, "assert X.shape[0] == alpha.size",
+               "assert X.shape[1] == alpha.size", expect="weight-axis"),
         Mutant("mapper: scale shifted before the constant term is formed", MT, fn=_shift_scale_early,
                expect="scale-order"),
         Mutant("arbf_args: order-2 block uses the order-1 scale", KN,
